@@ -169,7 +169,7 @@ def replay_group(chk, basis, hist, recs, shape, dtype, dask, kwi, chunk_axis=0):
         key = "gen:" + ("identity" if neff == 0 else "roundtrip" if basis_exp == basis else "conversion")
     else:
         err = np.abs(got.astype(LD) - exp).max(axis=1)
-        tol = (0 if neff == 0 else (4 * neff + 4)) * eps * power
+        tol = (4 * neff + 4) * eps * power          # 4 ulp of I for the quadratic forms, 4 more per conversion
         key = "gen:" + {"stokes": "stokes", "inten": "intensity", "item": "item"}[kind] + ("" if neff == 0 else "-other-basis")
     badi = np.nonzero(err > tol)[0]
     if len(badi):
@@ -284,7 +284,7 @@ def random_samples(rnd, n, dtype):
 
 
 def run_trace(chk, rnd):
-    n = 1200 if chk.tier == "thorough" else 160
+    n = 1200 if chk.tier == "thorough" else 120
     events = []
     for dtype in ("complex128", "complex64"):
         for basis in ("linear", "circular"):
